@@ -24,6 +24,8 @@ var c14TopLevel = []string{
 	"fuzz.StateRoot", "fuzz.State", "fuzz.Message",
 }
 
+var c14ViaMessage = map[string]bool{"fuzz.SetState": true, "fuzz.ImportBlock": true, "fuzz.GetState": true, "fuzz.StateRoot": true, "fuzz.State": true}
+
 type c14Case struct {
 	Type  string    `json:"type"`            // top-level decoder, or "frame"
 	Devs  []cgenDev `json:"devs,omitempty"`  // seed
@@ -73,15 +75,15 @@ func (c *c14Runner) hotSite(unit uint64, seed cgenSeed, pos int) (bool, string) 
 	ct := seed.ct
 	m56 := cgenMut{Kind: "ins", Pos: pos, Val: cgenNat56}
 	if o := c14Run(ct, cgenApply(seed.enc, m56)); o.panicked && strings.Contains(o.msg, "out of range") {
-		c.hHot, c.hSite = true, o.site
-		return true, o.site
+		c.hHot, c.hSite = true, c14Site(o.site)
+		return true, c.hSite
 	}
 	m16 := cgenMut{Kind: "ins", Pos: pos, Val: cgenNat16}
 	if o := c14Run(ct, cgenApply(seed.enc, m16)); o.alloc >= cgenHotAlloc {
 		c.hHot = true
-		c.hSite = cgenLocalise(seed, m16, func(sct *cgenType, in []byte, _ []byte) bool {
+		c.hSite = c14Site(cgenLocalise(seed, m16, func(sct *cgenType, in []byte, _ []byte) bool {
 			return c14Run(sct, in).alloc >= cgenHotAlloc
-		}) + ".Decode"
+		}) + ".Decode")
 	}
 	return c.hHot, c.hSite
 }
@@ -111,6 +113,14 @@ func (c *c14Runner) runCase(unit uint64, seed cgenSeed, m cgenMut) {
 	w := cgenApply(seed.enc, m)
 	o := c14Run(ct, w)
 	c.sink.Count(1, 1)
+	if cgenHugeLength(m) && o.alloc >= 1<<28 {
+		// the allocator satisfied (lazily) a declared length of >= 2^28 bytes at this make() site:
+		// unbounded allocation demonstrated there; the other huge lengths for the same site are
+		// not executed again in this child
+		if hot, site := c.hotSite(unit, seed, m.Pos); hot {
+			c.killed[site] = true
+		}
+	}
 	cs := c14Case{Type: ct.Name, Devs: seed.devs, Mut: &m}
 	c.judge(ct.Name, m.Kind, w, o, cs, func() string {
 		return cgenLocalise(seed, m, func(sct *cgenType, in []byte, _ []byte) bool {
@@ -119,15 +129,28 @@ func (c *c14Runner) runCase(unit uint64, seed cgenSeed, m cgenMut) {
 	})
 }
 
+// c14Site normalises "types.(*X).Decode" (a stack frame) to "types.X.Decode".
+func c14Site(s string) string {
+	return strings.NewReplacer("(*", "", ")", "").Replace(s)
+}
+
+const c14KeyLen = "declared length reaches the allocator"
+
 func (c *c14Runner) judge(name, mk string, w []byte, o c14Out, cs c14Case, allocSite func() string) {
 	switch {
+	case o.panicked && (strings.Contains(o.msg, "makeslice: len out of range") || strings.Contains(o.msg, "makeslice: cap out of range")):
+		// the allocator refused the declared length: same defect as the two cases below,
+		// seen with a length no allocator can satisfy
+		c.sink.Class(name + "|" + mk + "|makeslice-panic")
+		c.sink.Violation(c14Site(o.site), "unbounded-allocation", c14KeyLen,
+			fmt.Sprintf("%s: decoding %s (%d bytes) panics in %s: %s", name, cgenHex(w), len(w), o.site, o.msg), cs)
 	case o.panicked:
 		c.sink.Class(name + "|" + mk + "|go-panic")
-		c.sink.Violation(o.site, "go-panic", cgenPanicClass(o.msg),
+		c.sink.Violation(c14Site(o.site), "go-panic", cgenPanicClass(o.msg),
 			fmt.Sprintf("%s: decoding %s (%d bytes) panics in %s: %s", name, cgenHex(w), len(w), o.site, o.msg), cs)
 	case c14Over(o.alloc, len(w)):
-		c.sink.Class(name + "|" + mk + "|alloc-unbounded")
-		c.sink.Violation(allocSite(), "alloc-unbounded", "more than 64*len+1MiB",
+		c.sink.Class(name + "|" + mk + "|alloc-over-bound")
+		c.sink.Violation(c14Site(allocSite()), "unbounded-allocation", c14KeyLen,
 			fmt.Sprintf("%s: decoding %s (%d bytes) allocates %d bytes (bound %d)", name, cgenHex(w), len(w), o.alloc, c14Factor*len(w)+c14Slack), cs)
 	case o.err != nil:
 		c.sink.Class(name + "|" + mk + "|error")
@@ -214,7 +237,7 @@ func TestVerif_C14(t *testing.T) {
 		if err != nil {
 			t.Fatalf("replay: seed cannot be encoded: %v", err)
 		}
-		run.runCase(0, cgenSeed{ct, rc.Devs, enc, 0}, *rc.Mut)
+		run.runCase(0, cgenSeed{ct, rc.Devs, enc, 0, true}, *rc.Mut)
 		return
 	}
 
@@ -238,7 +261,7 @@ func TestVerif_C14(t *testing.T) {
 				continue
 			}
 			ord := uint64(0)
-			cgenMutations(seed.enc, full, func(m cgenMut) {
+			cgenMutations(seed.enc, full && seed.structural, func(m cgenMut) {
 				if sink.Begin(seed.unit, ord) {
 					run.runCase(seed.unit, seed, m)
 				}
@@ -265,6 +288,11 @@ func TestVerif_C14(t *testing.T) {
 	// ---- parent ----
 	var all []cgenSeed
 	for _, n := range c14TopLevel {
+		if !r.Thorough() && c14ViaMessage[n] {
+			// quick: these UnmarshalBinary entry points are exercised through fuzz.Message.ReadFrom,
+			// which calls exactly them on the frame payload
+			continue
+		}
 		all = append(all, cgenSeedsSel(cgenByName[n], 1, 4096, !r.Thorough())...)
 	}
 	var units []cgenSeed
@@ -275,7 +303,7 @@ func TestVerif_C14(t *testing.T) {
 			seed.unit = uint64(u)
 			units = append(units, seed)
 			byUnit[seed.unit] = seed
-			planned += cgenMutCount(seed.enc, full)
+			planned += cgenMutCount(seed.enc, full && seed.structural)
 		}
 	}
 	for li := range c14FrameLens {
@@ -311,7 +339,7 @@ func TestVerif_C14(t *testing.T) {
 				seed := byUnit[d.Unit]
 				name = seed.ct.Name
 				ord := uint64(0)
-				cgenMutations(seed.enc, full, func(m cgenMut) {
+				cgenMutations(seed.enc, full && seed.structural, func(m cgenMut) {
 					if ord == d.Ord {
 						mm := m
 						cs = c14Case{Type: name, Devs: seed.devs, Mut: &mm}
@@ -325,12 +353,12 @@ func TestVerif_C14(t *testing.T) {
 				site = name + ".Decode"
 			}
 			killed[site] = true
-			kind := "fatal"
+			kind, key := "fatal", d.Why
 			if strings.Contains(d.Why, "out of memory") || strings.Contains(d.Why, "cannot allocate") {
-				kind = "oom"
+				kind, key = "unbounded-allocation", c14KeyLen
 			}
 			r.Class(name + "|killed the process: " + d.Why)
-			r.Violation(site, kind, d.Why,
+			r.Violation(c14Site(site), kind, key,
 				fmt.Sprintf("%s: decoding %s (%d bytes) terminates the process: %s", name, cgenHex(in), len(in), d.Tail[:min(len(d.Tail), 700)]), cs)
 		})
 	r.Extra("sum_process_deaths", deaths)
